@@ -145,7 +145,9 @@ def newTypecast (t : TyId) (inner : Node) : Outcome (Option Node) :=
     | none => .ok (some (.cast inner t (op ti.name)))
     | some p =>
       match env.importName p with
-      | some n => .ok (some (.cast inner t (op (n ++ "." ++ ti.name))))
+      | some n =>
+        if n == "." then .ok (some (.cast inner t (op ti.name)))   -- a dot-imported type needs no qualifier
+        else .ok (some (.cast inner t (op (n ++ "." ++ ti.name))))
       | none => .ok (some (.cast inner t (op (ti.pkgName ++ "." ++ ti.name))))
   | .basic => .ok (some (.cast inner t (op (env.ty t).str)))
   | _ => .ok none
@@ -288,6 +290,11 @@ def createMapped (lhs : Node) (pos : String) (rhsNode? : Option Node) : Outcome 
       else pure (.simple lhs (.node n) n.returnsError w)
     | none => ctx.noMatchAt pos lhs w
 
+/-- `conversionOperator`: a type name as the operator of a conversion; a pointer type needs
+parentheses, `(*T)(x)` -/
+def _root_.Convergen.conversionOperator (typeName : String) : String :=
+  if typeName.toList.head? == some '*' then "(" ++ typeName ++ ")" else typeName
+
 /-- `sliceToSlice` -/
 def sliceToSlice (lhs rhs : Node) : Outcome (Option Stmt) :=
   let env := ctx.env
@@ -297,7 +304,7 @@ def sliceToSlice (lhs rhs : Node) : Outcome (Option Stmt) :=
     if env.isBasicType re && env.identical re le then .ok (some (.sliceCopy lhs rhs ("[]" ++ (env.ty le).str)))
     else .ok (some (.sliceLoop lhs rhs ("[]" ++ env.typeNameF le)))
   else if ctx.opts.typecast && env.convertible re le then
-    .ok (some (.sliceCast lhs rhs ("[]" ++ env.typeNameF le) (env.typeNameF le)))
+    .ok (some (.sliceCast lhs rhs ("[]" ++ env.typeNameF le) (conversionOperator (env.typeNameF le))))
   else .ok none
 
 /-- state of the two candidate passes of `structFieldAndStructGettersAndFields`: the assignment found
